@@ -78,6 +78,9 @@ def run(seed=0):
                 ("mod", lambda: np.mod(_c(a), 1.5), lambda: np.mod(a, 1.5)),
                 ("mod-neg-divisor", lambda: np.mod(_c(a), -0.7), lambda: np.mod(a, -0.7)),
                 ("floor_divide", lambda: np.floor_divide(_c(a), 0.7), lambda: np.floor_divide(a, 0.7)),
+                ("histogram", lambda: NPX.histogram(_c(a), bins=_c(np.array([-3.0, 0.0, 1.5, 6.0])))[0],
+                 lambda: np.histogram(a, bins=np.array([-3.0, 0.0, 1.5, 6.0]))[0]),
+                ("flatnonzero", lambda: NPX.flatnonzero(_c(a) > 1.0), lambda: np.flatnonzero(a > 1.0)),
                 ("clip", lambda: NPX.clip(_c(a), 0.0, 1.0), lambda: np.clip(a, 0.0, 1.0)),
                 ("le-and", lambda: (_c(a) <= 2.0) & (_c(b) > 0.5), lambda: (a <= 2.0) & (b > 0.5)),
                 ("linalg.norm", lambda: None if n < 2 else NPX.linalg.norm(_c(np.abs(a) + 1)) ** 2,
